@@ -1,3 +1,4 @@
+\* quick-tier exhaustive configuration (props/C16.py generates this and the larger ones)
 SPECIFICATION Spec
 CONSTANTS
   Hosts <- HostsSmall
@@ -5,7 +6,7 @@ CONSTANTS
   Names = {"n"}
   DomKinds <- KindsSmall
   MaxAges <- MaxAgesFull
-  Expiries <- ExpiriesSmall
+  Expiries <- ExpiriesNone
   Schemes = {"http", "https"}
   MaxSteps = 3
   MaxTime = 13
